@@ -42,12 +42,32 @@ Definition dec_op (z : Z) : op := if z =? 0 then OpPop else OpPush z.
 Fixpoint updl {A} (l : list A) (i : nat) (x : A) : list A :=
   match l, i with [], _ => [] | _ :: t, O => x :: t | h :: t, S j => h :: updl t j x end.
 
+(* a negative schedule entry t stands for 2^32 + t push/pop pairs performed by one extra goroutine while the ring is
+   empty and every slot is free: their net effect (pairs_reach) is that both counters and every slot's sequence
+   number advance; used only to replay the known finding F10 (an operation parked across a 2^32 advance) *)
+Definition all_free (s : shared) : bool := forallb (fun f => match f with Free _ => true | _ => false end) (ph s).
+Definition warp (c : config) (n : Z) : config :=
+  let s := sh c in
+  match q s with
+  | [] =>
+      if all_free s then
+        let h' := hd s + n in
+        let p i := h' + ((i - h') mod cap s) in
+        let idx := map Z.of_nat (seq 0 (length (slots s))) in
+        {| sh := {| slots := map (fun i => (None, u32 (p i))) idx; hd := h'; tl := tl s + n; cap := cap s; q := [];
+                    ph := map (fun i => Free (p i)) idx; lin := lin s |};
+           ths := ths c; hist := hist c |}
+      else c
+  | _ => c
+  end.
+
 (* run the schedule; programs are consumed when an idle thread is scheduled; entries for a thread with
    nothing left to do are skipped.  The trace is accumulated in reverse. *)
 Fixpoint go (c : config) (progs : list (list Z)) (sched : list Z) (acc : list Z) : option (config * list Z) :=
   match sched with
   | [] => Some (c, acc)
   | t :: rest =>
+      if t <? 0 then go (warp c (2 ^ 32 + t)) progs rest (t :: acc) else
       let i := Z.to_nat t in
       match nth_error (ths c) i with
       | None => go c progs rest acc
